@@ -23,6 +23,7 @@ use crate::binding::Bindings;
 use crate::binding::populate_variables;
 use crate::expression::ArcExpression;
 use crate::stash::ArcStrStashExt;
+use crate::term::ResultTerm;
 
 #[derive(Clone, Debug)]
 pub struct ExecState<'a, D: ?Sized> {
@@ -263,7 +264,6 @@ impl<'a, D: Dataset + ?Sized> ExecState<'a, D> {
                     let graph_matcher = vec![Some(name.inner().clone())];
                     self.select(inner, &graph_matcher, binding)
                 } else {
-                    let Bindings { variables, .. } = self.select(inner, &[], binding)?;
                     let graph_names = self
                         .config()
                         .dataset
@@ -271,36 +271,38 @@ impl<'a, D: Dataset + ?Sized> ExecState<'a, D> {
                         .map(|res| res.map(|t| self.stash.copy_term(t)))
                         .collect::<Result<BTreeSet<_>, _>>()
                         .map_err(SparqlWrapperError::Dataset)?;
-                    if graph_names.is_empty() {
-                        self.select(inner, &[], binding)
-                    } else {
-                        self.graph_rec(var.as_str(), graph_names.into_iter(), inner, binding)
+                    // the variables in scope are those of the inner pattern, plus the graph variable
+                    // (even when there is no named graph, hence no solution)
+                    let Bindings { mut variables, .. } = self.select(inner, &[], binding)?;
+                    let varname = self.stash.copy_variable(var);
+                    if !variables.contains(&varname) {
+                        variables.push(varname);
                     }
+                    // GRAPH ?g { P } is the union, for each named graph, of the JOIN of the solutions of P
+                    // in that graph with { ?g -> name }; P itself is evaluated without ?g being bound.
+                    let varkey = self.stash.copy_str(var.as_str());
+                    let mut iters = Vec::with_capacity(graph_names.len());
+                    for name in graph_names {
+                        let graph_matcher = vec![Some(name.clone())];
+                        let Bindings { iter, .. } = self.select(inner, &graph_matcher, binding)?;
+                        let varkey = varkey.clone();
+                        let value: ResultTerm = name.into();
+                        iters.push(iter.filter_map(move |resb| match resb {
+                            Err(e) => Some(Err(e)),
+                            Ok(mut b) => match b.v.get(&varkey) {
+                                Some(other) if !Term::eq(other.inner(), value.inner()) => None,
+                                Some(_) => Some(Ok(b)),
+                                None => {
+                                    b.v.insert(varkey.clone(), value.clone());
+                                    Some(Ok(b))
+                                }
+                            },
+                        }));
+                    }
+                    let iter = Box::new(iters.into_iter().flatten());
+                    Ok(Bindings { variables, iter })
                 }
             }
-        }
-    }
-
-    fn graph_rec(
-        &mut self,
-        var: &str,
-        mut graph_names: std::collections::btree_set::IntoIter<ArcTerm>,
-        inner: &GraphPattern,
-        binding: Option<&Binding>,
-    ) -> Result<Bindings<'a, D>, SparqlWrapperError<D::Error>> {
-        if let Some(name) = graph_names.next() {
-            let mut b = binding.cloned().unwrap_or_else(Binding::default);
-            b.v.insert(self.stash.copy_str(var), name.clone().into());
-            let graph_matcher = vec![Some(name)];
-            let Bindings { variables, iter } = self.select(inner, &graph_matcher, Some(&b))?;
-            let iter = Box::new(iter.chain(Box::new(
-                self.graph_rec(var, graph_names, inner, binding)?.iter,
-            )));
-            Ok(Bindings { variables, iter })
-        } else {
-            let variables = vec![];
-            let iter = Box::new(std::iter::empty());
-            Ok(Bindings { variables, iter })
         }
     }
 
